@@ -76,8 +76,9 @@ def doParse (v : Hand.Variant) (T : Hand.Tables) (loc : List Char) (s : Option (
   match o.result with
   | .ok cd =>
     let items := (cd.elements.zip (cd.nAtoms.zip cd.massFractions)).map fun (z, n, f) => s!" {z}:{showRat n}:{showOpt f}"
+    -- `ovf=1`: a subscript was converted to +inf; the numbers printed are the exact ones, those of the C code are non-finite
     s!"ok n={cd.elements.length}{String.join items} all={showRat cd.nAtomsAll} mm={showRat cd.molarMass}" ++
-      tail o.live (Hand.liveAfterFree o) l0 o.locale
+      (if o.ovf then " ovf=1" else "") ++ tail o.live (Hand.liveAfterFree o) l0 o.locale
   | .error e => s!"err {esc e.msg}" ++ tail o.live (Hand.liveAfterFree o) l0 o.locale
 
 /-- `nAll;molar;Z:n:f,Z:n:f,...` -/
@@ -129,20 +130,31 @@ where inner : Spec.Formula → Nat
   | .atom _ _ r => inner r
   | .group i _ r => (if directAtom i then 0 else 1) + inner i + inner r
 
+/-- The verdict the property demands for the string `s`, decided by the specification alone (`Spec.inAlphabet`,
+    `Spec.depthAfter`, the recogniser `Spec.read` of the grammar, `Spec.expected`): **every** string that is not the
+    text of a well-formed formula whose subscripts a double can hold and whose elements have weights must be
+    rejected; the second word names the class. -/
 def doSpec (T : Hand.Tables) (s : List Char) : String :=
   let E := specElements T
   if s.any (fun c => !Spec.inAlphabet c) then "expect reject outside-alphabet"
   else if Spec.depthAfter s 0 != some 0 then "expect reject unbalanced"
   else match Spec.read s with
-  | none => "expect none not-a-formula"
+  | none => "expect reject not-a-formula"                 -- in the alphabet, balanced, but not derivable from the grammar
   | some f =>
     match Spec.expected E f with
     | some c =>
       let items := (c.elements.zip (c.nAtoms.zip c.massFractions)).map fun (z, n, fr) => s!" {z}:{showRat n}:{showRat fr}"
       s!"expect ok n={c.elements.length}{String.join items} all={showRat c.nAtomsAll} mm={showRat c.molarMass} lead={levelsNoAtom f}"
     | none =>
-      if hasJunk f then "expect reject malformed-subscript"
+      if (match f with | .nil => true | _ => false) then "expect reject empty"
+      else if hasJunk f then "expect reject malformed-subscript"
       else if !(f.okB E) then "expect reject unknown-symbol-or-zero-subscript-or-empty-group"
+      else if !f.fitsB then
+        -- a positive decimal subscript that a double cannot hold; `lead`/`els` let the check recognise the behaviour
+        -- of the one known site (non-finite counts for exactly these elements)
+        let els := ((f.elems E).foldr Spec.insertAsc []).map toString
+        (if f.hasOverflow then "expect reject subscript-overflow" else "expect reject subscript-underflow") ++
+          s!" els={",".intercalate els} lead={levelsNoAtom f}"
       else s!"expect reject no-atomic-weight lead={levelsNoAtom f}"
 
 partial def loop (v : Hand.Variant) (T : Hand.Tables) (h : IO.FS.Stream) (out : IO.FS.Stream) : IO Unit := do
@@ -186,7 +198,7 @@ def main (argv : List String) : IO UInt32 := do
   match argv with
   | [tables] => run tables Hand.asIs
   | [tables, flags] =>
-    -- three characters 0/1: localeFix weightFix leakFix (see Hand.Variant)
+    -- five characters 0/1: localeFix weightFix leakFix strictFix rangeFix (see Hand.Variant)
     let b := fun (i : Nat) => flags.toList.getD i '0' == '1'
-    run tables ⟨b 0, b 1, b 2⟩
-  | _ => IO.eprintln "usage: parser-model tables.txt [variant flags, e.g. 000]"; return 2
+    run tables ⟨b 0, b 1, b 2, b 3, b 4⟩
+  | _ => IO.eprintln "usage: parser-model tables.txt [variant flags, e.g. 00000]"; return 2
